@@ -7,6 +7,7 @@
 -/
 import Influx.Proto
 import Influx.Model.LineProtocolWire
+import Influx.Spec.C12
 
 open Influx Influx.Proto Influx.LP Influx.LP.Wire
 
@@ -43,7 +44,74 @@ def step (_ : Unit) (toks : List String) : Unit × String :=
   | some op => ((), modelAnswer op)
   | none => ((), "bad-op")
 
-def oracle (_obs : List (List String × String)) : Verdict := Verdict.pass false
+/-! ### the statement checker on the implementation's answers -/
+
+open Influx.Spec.C12
+
+/-- one `khex:T:value` of the iterator listing: the key, and whether the accessor returned -/
+def parseIterField (s : String) : Option (Bytes × Bool) :=
+  match s.splitOn ":" with
+  | [k, _t, v] => do some (← hexDecode k, v != "PANIC" && v != "HANG")
+  | _ => none
+
+def parsePoint (toks : List String) : Option PointObs :=
+  match toks with
+  | [key, name, tags, time, _raw, iter, fv] =>
+    match hexDecode key, time.toInt? with
+    | some k, some t =>
+      let nm := hexDecode name
+      let tg := Wire.parseTags tags
+      let its := (splitComma iter).mapM parseIterField
+      some { key := k, name := nm.getD [], tags := tg.getD [], time := t
+             fieldKeys := (its.getD []).map (·.1)
+             clean := nm.isSome && tg.isSome && its.isSome && (its.getD []).all (·.2) && fv == "ok" }
+    | _, _ => none
+  | _ => none
+
+/-- split the answer tokens at `|` -/
+def splitBar (toks : List String) : List (List String) :=
+  toks.foldr (fun t acc => if t == "|" then [] :: acc else
+    match acc with
+    | [] => [[t]]
+    | g :: gs => (t :: g) :: gs) [[]]
+
+/-- `none`: not an answer of the protocol; `some none`: panic / timeout / crash -/
+def parsePPAns (ans : String) : Option (Option (List PointObs × Option Bytes)) :=
+  if ans.startsWith "panic" || ans == "timeout" || ans == "crash" || ans == "skipped" then some none else
+  match splitBar (tokens ans) with
+  | [n, err] :: groups => do
+    let n ← n.toNat?
+    let e ← if err == "nil" then some none else (hexDecode err).map some
+    let pts ← groups.mapM parsePoint
+    if pts.length == n then some (some (pts, e)) else none
+  | _ => none
+
+def clip (s : String) : String := if s.length > 200 then (s.take 200).toString ++ "…" else s
+
+def judge (toks : List String) (ans : String) : Verdict :=
+  match parseOp toks with
+  | none => Verdict.fail "bad-line"
+  | some (.pk _) =>
+    if ans.startsWith "panic" || ans == "timeout" || ans == "crash" then
+      Verdict.fail ("parsekey-does-not-return:" ++ clip ("_".intercalate toks))
+    else { ok := true, nontrivial := true, tags := ["pk"] }
+  | some (.pp prec dt buf) =>
+    match parsePPAns ans with
+    | none => Verdict.fail ("bad-answer:" ++ clip (ans.replace " " "_"))
+    | some res =>
+      let o : Obs := ⟨prec, dt, buf, res⟩
+      match res with
+      | none => Verdict.fail ("does-not-return:" ++ clip ("_".intercalate toks ++ "=>" ++ ans))
+      | some (pts, err) =>
+        let tg := ["pp:points=" ++ toString (min pts.length 3), if err.isSome then "pp:error" else "pp:noerror",
+                   "lines=" ++ toString (min (candidateLines buf).length 4)]
+        if holdsOn o then { ok := true, nontrivial := !(candidateLines buf).isEmpty, tags := tg }
+        else if !pts.all (wellFormed dt) then
+          Verdict.fail ("malformed-point-accepted:" ++ clip ("_".intercalate toks)) tg
+        else Verdict.fail ("error-does-not-name-rejected-lines:" ++ clip ("_".intercalate toks)) tg
+
+def oracle (obs : List (List String × String)) : Verdict :=
+  obs.foldl (fun v (toks, ans) => v.and (judge toks ans)) (Verdict.pass false)
 
 def driver : Driver Unit := { init := (), step := step, oracle := oracle }
 
